@@ -617,6 +617,37 @@ func (s *Schema) hasDateKey(t Type, seen map[string]bool) bool {
 	return false
 }
 
+// HasMap reports whether a value of type t can hold a map.
+func (s *Schema) HasMap(t Type) bool { return s.hasMap(t, map[string]bool{}) }
+
+func (s *Schema) hasMap(t Type, seen map[string]bool) bool {
+	switch {
+	case t.Array != nil:
+		return s.hasMap(*t.Array, seen)
+	case t.MapV != nil:
+		return true
+	case t.Prim != "":
+		return false
+	}
+	d := s.Lookup(t.Named)
+	if d == nil || d.Kind == KEnum || seen[d.Name] {
+		return false
+	}
+	seen[d.Name] = true
+	defer delete(seen, d.Name)
+	for _, f := range d.Fields {
+		if s.hasMap(f.Type, seen) {
+			return true
+		}
+	}
+	for _, b := range d.Branches {
+		if s.hasMap(Type{Named: b.Def.Name}, seen) {
+			return true
+		}
+	}
+	return false
+}
+
 // HasUnionBelow reports whether a value of type t can hold a union below its top level.
 func (s *Schema) HasUnionBelow(t Type) bool { return s.hasUnionBelow(t, true, map[string]bool{}) }
 
